@@ -43,6 +43,8 @@ def gen_input(rnd, kind, max_n=4, idx=0):
         inp['compressed'] = kind != 'p2pkh_u' and (kind != 'p2pk' or rnd.random() < 0.5)
     if rnd.random() < 0.2:
         inp['with_locking_script'] = True
+    if kind in ('p2pkh', 'p2pkh_u', 'p2wpkh', 'p2sh_p2wpkh') and rnd.random() < 0.15:
+        inp['omit_script_type'] = True    # only witness_type is given; the library infers the script type
     return inp
 
 
@@ -204,6 +206,8 @@ def build_objects(spec, private_in_inputs=True):
             kw['sort'] = inp['sort']
         if inp.get('with_locking_script'):
             kw['locking_script'] = prevout_of(inp)['spk']
+        if inp.get('omit_script_type'):
+            kw.pop('script_type', None)
         ins.append(Input(inp['txid'], inp['n'], keys=keys, sequence=inp['seq'], value=inp['value'], compressed=inp['compressed'],
                          index_n=k, network=network, **kw))
     outs = []
@@ -232,6 +236,8 @@ def build(spec, private_in_inputs=True, route='add_input'):
         if inp.get('with_locking_script'):
             # the documented optional argument: the caller passes the scriptPubKey of the output being spent
             kw['locking_script'] = prevout_of(inp)['spk']
+        if inp.get('omit_script_type'):
+            kw.pop('script_type', None)
         t.add_input(inp['txid'], inp['n'], keys=keys, sequence=inp['seq'], value=inp['value'],
                     compressed=inp['compressed'], **kw)
     for o in spec['outs']:
